@@ -2,31 +2,188 @@
 
 Implementation side: the grammar / model family of harness/objgen.py rendered with random
 layouts (leading, trailing and interleaved whitespace, `\\r\\n`, line and block comments,
-tokens glued together where lexically possible, non-ASCII identifiers), loaded from strings
-and from files (universal-newline translation applies), plus a small "mini" family:
-every maximal run of letters in a string over {a, b, space, \\n, \\r} is an object.
-Observed: `_tx_position`, `_tx_position_end`, `get_location(obj)` of every object,
-`parser.pos_to_linecol` on a sample of positions, and the Arpeggio parse tree.
+tokens glued together where lexically possible, non-ASCII identifiers), plus a small "mini"
+family (every maximal run of letters in a string over {a, b, space, \\n, \\r} is an object)
+and a "multi" family (2-4 files that import each other and refer to each other's items, so
+several models, parsers and file names coexist).
 
-Model side (Drivers/Obj.lean): `posToLineCol`, `getLocation`, `build` (spans assigned by
-process_node from the dumped real parse tree) and the well-formedness predicate `PT.wfB`
-on the real parse tree (the hypothesis of the span theorems).
+Every text is turned into a model in one of the ways the quantifier names ("loaded from
+strings and from files"): `model_from_str(text)`, `model_from_str(text, file_name=...)`,
+`model_from_file(absolute path)`, `model_from_file(relative path)`; the meta-model comes from
+`metamodel_from_str(grammar)`, `metamodel_from_str(grammar, file_name=...)` or
+`metamodel_from_file(path)`; other models may be loaded with the same meta-model before and
+after the observed one (history).  All of these put *other* file names / parsers into the
+system (the grammar's file name on every class, other models' names and parsers).
+
+Observed: `_tx_position`, `_tx_position_end`, `get_location(obj)` of every object of every
+model (on the finished model and, in some cases, also from an object processor while loading), `parser.pos_to_linecol` on a sample of positions, and the Arpeggio parse tree.
+
+Model side (Drivers/Obj.lean): `posToLineCol`, `getLocation` (per-root input and file name),
+`build` (spans assigned by process_node from the dumped real parse tree) and the
+well-formedness predicate `PT.wfB` on the real parse tree (the hypothesis of the span theorems).
 
 Oracle: from the statement — the expected first / last token offsets of every object are
 known from the derivation and the layout; line / column are recomputed with str.count /
-str.rfind.
+str.rfind; the file name is the one of the model that contains the object.
 """
 import os
+import posixpath
 import re
+import tempfile
 
 from harness.core import Check, use_repo
 from harness import objgen as G
 
 MINI_GRAMMAR = "Model: items+=W;\nW: v=/[ab]+/;\n"
+MINI_OTHER = "b a\n ab"
+# several models at once: every file imports others (importURI, PlainNameImportURI) and refers to their items
+MULTI_GRAMMAR = ("Model: imports*=Imp items+=Item;\nImp: 'import' importURI=STRING;\n"
+                 "Item: 'item' name=ID ('->' ref=[Item])?;\n" + G.COMMENT_RULE + "\n")
+MULTI_NAMES = ["Imp", "Item", "Model"]
+MULTI_LAYOUT_GRAM = {"comment": True}
+TRIVIAL_LAYOUT = {"lead": None, "trail": None, "seps": []}
+
+# How a text becomes a model (the quantifier: "loaded from strings and from files") and how the grammar became
+# a meta-model.  Every way has its own idea of "a file name" that get_location must not confuse with the model's:
+#   model   str    model_from_str(text)                        -> file name None
+#           named  model_from_str(text, file_name=path)        -> path (the text is NOT read from the file)
+#           file   model_from_file(absolute path)              -> path (universal newlines)
+#           rel    model_from_file(relative path)              -> the absolute path
+#   grammar str    metamodel_from_str(grammar)                 (classes carry _tx_filename None)
+#           named  metamodel_from_str(grammar, file_name=path) (classes carry the grammar's path)
+#           file   metamodel_from_file(path)                   (ditto)
+# "hist": other models loaded with the same meta-model before ("pre") / after ("post") the observed one.
+# "proc": object processors of all object classes call get_location too (its documented use: filling exceptions),
+#         i.e. the location is also observed *during* the load, not only on the finished model.
+MODEL_SRCS = ("str", "named", "file", "rel")
+MM_SRCS = ("str", "named", "file")
+
+
+def src_of(case):
+    s = case.get("src")
+    if s in MODEL_SRCS:
+        return s
+    return "file" if case.get("file") else "str"
+
+
+def with_src(case, s):
+    return dict(case, src=s, file=s in ("file", "rel"))
+
+
+def translated(case):
+    """the text reaches the parser through Python's text-mode file reading"""
+    return src_of(case) in ("file", "rel")
+
+
+def gen_cfg(r, multi=False):
+    cfg = {"mm_src": r.weighted([("str", 4), ("file", 3), ("named", 1)])}
+    if multi:  # a string-loaded model without a file name cannot import (no base directory)
+        src = r.weighted([("file", 4), ("named", 2), ("rel", 1)])
+    else:
+        src = r.weighted([("str", 8), ("file", 6), ("named", 3), ("rel", 2)])
+        if r.chance(0.35):
+            kinds = ["str", "file", "named"]
+            cfg["hist"] = {"pre": [r.choice(kinds) for _ in range(r.weighted([(0, 2), (1, 3), (2, 1)]))],
+                           "post": [r.choice(kinds) for _ in range(r.weighted([(0, 2), (1, 3), (2, 1)]))]}
+    cfg["src"] = src
+    cfg["file"] = src in ("file", "rel")
+    cfg["proc"] = r.chance(0.3)  # get_location is also asked from object processors (while the load is still running)
+    return cfg
 
 
 def linecol(text, pos):
     return [1 + text.count("\n", 0, pos), pos - (text.rfind("\n", 0, pos) + 1) + 1]
+
+
+# ---------------------------------------------------------------------- the multi-file family
+def multi_tokens(case, i):
+    """tokens of file i and its objects as (class, name, first token, last token)"""
+    f = case["files"][i]
+    base = posixpath.dirname(f["path"])
+    toks, objs = [], []
+    for j in f["imports"]:
+        rel = posixpath.relpath(case["files"][j]["path"], base or ".")
+        objs.append(("Imp", None, len(toks), len(toks) + 1))
+        toks += ["import", '"%s"' % rel]
+    for name, ref in f["items"]:
+        k = len(toks)
+        toks += ["item", name] + ([] if ref is None else ["->", ref])
+        objs.append(("Item", name, k, len(toks) - 1))
+    return toks, objs
+
+
+def multi_translated(case, i):
+    return True if i > 0 else translated(case)
+
+
+def multi_expected(case, i, translate=None):
+    """(text of file i as the parser sees it, expected objects in the format of objgen.expected)"""
+    if translate is None:
+        translate = multi_translated(case, i)
+    toks, objs = multi_tokens(case, i)
+    text, offs = G.assemble(MULTI_LAYOUT_GRAM, toks, case["files"][i]["layout"], translate)
+    ni = len(case["files"][i]["imports"])
+    exp = [{"eid": 0, "cls": "Model", "name": None, "span": [offs[0][0], offs[-1][1]], "parent": None,
+            "attrs": [["imports", "cont", list(range(1, ni + 1)), True],
+                      ["items", "cont", list(range(ni + 1, len(objs) + 1)), True]]}]
+    for k, (cls, name, a, b) in enumerate(objs):
+        exp.append({"eid": k + 1, "cls": cls, "name": name, "span": [offs[a][0], offs[b][1]], "parent": 0, "attrs": []})
+    return text, exp
+
+
+def multi_valid(case):
+    """every file reachable from file 0, every reference visible (own file or a directly imported one)"""
+    files = case["files"]
+    if not files or any(not f["items"] for f in files):
+        return False
+    if any(j == i or not (0 <= j < len(files)) for i, f in enumerate(files) for j in f["imports"]):
+        return False
+    if any(len(set(f["imports"])) != len(f["imports"]) for f in files):
+        return False
+    seen, todo = {0}, [0]
+    while todo:
+        for j in files[todo.pop()]["imports"]:
+            if j not in seen:
+                seen.add(j)
+                todo.append(j)
+    if len(seen) != len(files):
+        return False
+    where = {}
+    for i, f in enumerate(files):
+        for name, _ in f["items"]:
+            if name in where:
+                return False
+            where[name] = i
+    for i, f in enumerate(files):
+        for _, ref in f["items"]:
+            if ref is not None and where.get(ref) not in [i] + f["imports"]:
+                return False
+    return True
+
+
+def gen_multi(r):
+    nf = r.randint(2, 4)
+    dirs = ["", "", "sub", "sub/deep", "lib"]
+    files = [{"path": posixpath.join(r.choice(dirs) if i else "", f"f{i}.txt"), "imports": [], "items": []}
+             for i in range(nf)]
+    for i in range(1, nf):
+        files[r.below(i)]["imports"].append(i)
+    for i in range(nf):
+        for j in range(nf):
+            if i != j and j not in files[i]["imports"] and r.chance(0.2 if i < j else 0.08):  # i > j: import cycles
+                files[i]["imports"].append(j)
+        files[i]["imports"] = r.shuffle(files[i]["imports"])
+        files[i]["items"] = [[f"n{i}x{k}", None] for k in range(r.randint(1, 3))]
+    for i, f in enumerate(files):
+        visible = [it[0] for j in [i] + f["imports"] for it in files[j]["items"]]
+        for it in f["items"]:
+            if r.chance(0.65):
+                it[1] = r.choice(visible)
+    case = {"kind": "multi", "files": files}
+    for i, f in enumerate(files):
+        f["layout"] = G.gen_layout(r, MULTI_LAYOUT_GRAM, len(multi_tokens(case, i)[0]))
+    case.update(gen_cfg(r.fork("cfg"), multi=True))
+    return case
 
 
 class Prop(Check):
@@ -46,36 +203,50 @@ class Prop(Check):
         "Obj.C06_location_nchar",
     ]
     DRIVER = "Drivers/Obj.lean"
-    QUICK_CASES = 350
+    QUICK_CASES = 380
     THOROUGH_CASES = 5000
     PROCS_THOROUGH = 4
     RULE = ("random grammar + derived model rendered with a random layout (whitespace incl. \\r\\n and bare \\r, line / "
-            "block comments, glued tokens, non-ASCII names), from string or file; plus 'mini' texts over {a,b,space,\\n,\\r}; "
+            "block comments, glued tokens, non-ASCII names); 'mini' texts over {a,b,space,\\n,\\r}; 'multi': 2-4 files "
+            "importing each other (importURI, also cyclic) with cross-file references; each with a random load "
+            "configuration: model from string / string with file_name / absolute / relative file, grammar from string / "
+            "string with file_name / file, other models loaded with the same meta-model before and after, get_location "
+            "also asked from object processors during the load; "
             "non-trivial = >= 3 objects, text starts with whitespace or a comment, some object starts on a line > 1 at a "
-            "column > 1, and some object's slice contains a newline or a comment")
+            "column > 1, and some object's slice contains a newline or a comment (multi: >= 2 models and a cross-file "
+            "reference)")
     MODELLED = ("hand-modelled: Arpeggio Parser.pos_to_linecol incl. bisect_left loop (Obj/LineCol.lean), "
-                "NonTerminal.position / position_end and process_node's span assignment (Obj/Build.lean), get_location; "
-                "tie X: pos_to_linecol on sampled positions, get_location and spans of every object, process_node on the "
-                "real parse tree, WF predicate on the real parse tree; the Arpeggio interpreter itself is not modelled "
-                "here (well-formedness of its trees is checked on every case, not proved)")
+                "NonTerminal.position / position_end and process_node's span assignment (Obj/Build.lean), get_location "
+                "(model found with get_model; input and file name per model root); "
+                "tie X: pos_to_linecol on sampled positions, get_location and spans of every object of every loaded "
+                "model, process_node on the real parse tree, WF predicate on the real parse tree; the Arpeggio "
+                "interpreter itself is not modelled here (well-formedness of its trees is checked on every case, not "
+                "proved); Python attribute lookup (instance vs class `_tx_filename`) is not modelled: the model reads "
+                "the file name of the model root, the grammar's file name does not exist in it")
     ASSUMPTIONS = [
         "'matched' = retained in the parse tree: suppressed matches ('-') and empty string literals are outside the fragment",
         "lines are separated by \\n (a bare \\r does not start a new line); for files the input is the text as read "
         "by Python (universal newlines)",
         "Arpeggio parse trees have ordered, non-overlapping, non-empty terminals and no empty NonTerminal "
         "(PT.wfB; checked on every generated case)",
+        "the model's file name is None for model_from_str(text), the absolute path for model_from_file(path) (also "
+        "when a relative path was given) and for model_from_str(text, file_name=path)",
     ]
 
     # ------------------------------------------------------------------ generation
     def gen(self, rng, n, tier):
         nmini = n // 5
-        for k in range(n - nmini):
+        nmulti = n // 10
+        for k in range(n - nmini - nmulti):
             r = rng.fork(f"case{k}")
             gram = G.gen_grammar(r, want_user=r.chance(0.5))
             tree = G.derive(r, gram, maxdepth=r.randint(2, 4))
             ntoks = len([1 for x in G.tokens(gram, tree) if x[0] == "tok"])
-            yield {"kind": "gen", "gram": gram, "tree": tree, "layout": G.gen_layout(r, gram, ntoks),
-                   "file": r.chance(0.3)}
+            case = {"kind": "gen", "gram": gram, "tree": tree, "layout": G.gen_layout(r, gram, ntoks)}
+            case.update(gen_cfg(r.fork("cfg")))
+            yield case
+        for k in range(nmulti):
+            yield gen_multi(rng.fork(f"multi{k}"))
         if tier == "thorough":
             # complete: all texts up to length 6 over the alphabet
             alpha = "ab \n\r"
@@ -88,79 +259,164 @@ class Prop(Check):
                 yield {"kind": "mini", "text": t, "file": False}
             for t in texts[::7]:
                 yield {"kind": "mini", "text": t, "file": True}
+            for k, t in enumerate(texts[3::11]):  # every load configuration over a slice of them
+                yield with_src({"kind": "mini", "text": t, "mm_src": MM_SRCS[k % 3]}, MODEL_SRCS[(k // 3) % 4])
         for k in range(nmini):
             r = rng.fork(f"mini{k}")
             ln = r.randint(0, 24)
             text = "".join(r.weighted([("a", 4), ("b", 2), (" ", 3), ("\n", 3), ("\r", 1), ("\r\n", 1)]) for _ in range(ln))
-            yield {"kind": "mini", "text": text, "file": r.chance(0.3)}
+            case = {"kind": "mini", "text": text}
+            case.update(gen_cfg(r.fork("cfg")))
+            yield case
 
     # ------------------------------------------------------------------ implementation
     def impl(self, case):
         use_repo()
         from textx.exceptions import TextXError
 
-        L = None
+        L = G.Loaded()
+        L.tmp = L.file = L.gfile = None
+        L.others = []
         try:
             try:
-                L = self.load_mini(case) if case["kind"] == "mini" else G.load(case)
+                if case["kind"] == "multi":
+                    self.load_multi(case, L)
+                    return self.observe_multi(case, L)
+                self.load_single(case, L)
             except TextXError as e:
-                return {"outcome": "error", "type": type(e).__name__, "msg": str(e)[:300],
-                        "text": G.universal_newlines(case["text"]) if case.get("file") else case.get("text")}
+                return {"outcome": "error", "type": type(e).__name__, "msg": str(e)[:300], "text": self.case_text(case)}
             except RecursionError:
                 return {"outcome": "other", "type": "RecursionError", "msg": ""}
             except Exception as e:
                 return {"outcome": "other", "type": type(e).__name__, "msg": str(e)[:300]}
             return self.observe(case, L)
         finally:
-            if L is not None:
-                G.cleanup(L)
+            G.cleanup(L)
 
-    def load_mini(self, case):
-        import tempfile
-        from textx import metamodel_from_str
+    def case_text(self, case):
+        """the text the parser is expected to see (single-model kinds)"""
+        if case["kind"] == "mini":
+            return G.universal_newlines(case["text"]) if translated(case) else case["text"]
+        if case["kind"] == "gen":
+            return G.expected(case["gram"], case["tree"], case["layout"], translate=translated(case))[0]
+        return None
 
-        L = G.Loaded()
-        L.tmp = L.file = None
-        L.mm = metamodel_from_str(MINI_GRAMMAR)
-        raw = case["text"]
-        L.text = G.universal_newlines(raw) if case.get("file") else raw
-        runs = [(m.start(), m.end()) for m in re.finditer(r"[ab]+", L.text)]
-        L.exp = []
-        if runs:
-            L.exp.append({"eid": 0, "cls": "Model", "name": None, "span": [runs[0][0], runs[-1][1]], "parent": None,
-                          "attrs": [["items", "cont", list(range(1, len(runs) + 1)), True]]})
-            for i, (s, e) in enumerate(runs):
-                L.exp.append({"eid": i + 1, "cls": "W", "name": None, "span": [s, e], "parent": 0, "attrs": []})
-        if case.get("file"):
+    def tmpdir(self, L):
+        if L.tmp is None:
             L.tmp = tempfile.mkdtemp(prefix="verif-obj-")
-            L.file = os.path.join(L.tmp, "mini.txt")
-            try:
-                with open(L.file, "wb") as f:
-                    f.write(raw.encode("utf-8"))
-                L.model = L.mm.model_from_file(L.file)
-            except BaseException:
-                G.cleanup(L)
-                raise
-        else:
-            L.model = L.mm.model_from_str(raw)
-        return L
+        return L.tmp
 
-    def observe(self, case, L):
+    def make_mm(self, case, L, grammar, procs=(), **kw):
+        """the meta-model, created the way case['mm_src'] says"""
+        import textx
+        from textx import metamodel_from_file, metamodel_from_str
+
+        how = case.get("mm_src", "str")
+        if how == "str":
+            mm = metamodel_from_str(grammar, **kw)
+        else:
+            L.gfile = os.path.join(self.tmpdir(L), "grammar.tx")
+            if how == "named":
+                mm = metamodel_from_str(grammar, file_name=L.gfile, **kw)
+            else:
+                with open(L.gfile, "wb") as f:
+                    f.write(grammar.encode("utf-8"))
+                mm = metamodel_from_file(L.gfile, **kw)
+        L.ploc = {}
+        if case.get("proc") and procs:
+            def record(obj):
+                if not G.is_txobj(obj):
+                    return obj
+                try:
+                    loc = textx.get_location(obj)
+                    L.ploc[id(obj)] = [loc.get("line"), loc.get("col"), loc.get("nchar"), loc.get("filename")]
+                except Exception as e:
+                    L.ploc[id(obj)] = {"exc": type(e).__name__}
+                return None
+
+            mm.register_obj_processors({name: record for name in procs})
+        return mm
+
+    def load_text(self, L, mm, how, raw, fname):
+        """(model, absolute file name or None)"""
+        if how == "str":
+            return mm.model_from_str(raw), None
+        path = os.path.join(self.tmpdir(L), *fname.split("/"))
+        os.makedirs(os.path.dirname(path), exist_ok=True)
+        with open(path, "wb") as f:  # "named": an editor buffer of an existing file
+            f.write(raw.encode("utf-8"))
+        if how == "named":
+            return mm.model_from_str(raw, file_name=path), path
+        if how == "rel":
+            return mm.model_from_file(os.path.relpath(path)), path
+        return mm.model_from_file(path), path
+
+    def load_single(self, case, L):
         import textx
 
-        real, why = G.match_objects(L)
-        if real is None:
-            return {"outcome": "shape", "why": why, "text": L.text}
-        idx = {id(o): i for i, o in enumerate(real)}
-        names = sorted(r["name"] for r in case["gram"]["rules"]) if case["kind"] == "gen" else ["Model", "W"]
-        objs, heap = [], []
-        for i, ro in enumerate(real):
+        if case["kind"] == "mini":
+            grammar, kw = MINI_GRAMMAR, {}
+            raw = case["text"]
+            L.text, L.exp = self.expected_of(case, {"text": self.case_text(case)})
+            other = (case.get("hist") or {}).get("text", MINI_OTHER)
+        else:
+            gram = case["gram"]
+            grammar = G.render_grammar(gram)
+            kw = dict(gram.get("opts", {}))
+            kw["classes"] = [G.make_user_class(r["name"], r["user"]) for r in gram["rules"] if r.get("user")]
+            L.text, L.exp = G.expected(gram, case["tree"], case["layout"], translate=translated(case))
+            raw = G.expected(gram, case["tree"], case["layout"], translate=False)[0]
+            other = G.expected(gram, case["tree"], TRIVIAL_LAYOUT, translate=False)[0]
+        L.grammar = grammar
+        procs = ["Model", "W"] if case["kind"] == "mini" else [r["name"] for r in case["gram"]["rules"] if r["kind"] == "common"]
+        L.mm = self.make_mm(case, L, grammar, procs=procs, **kw)
+        hist = case.get("hist") or {}
+        L.keep = []  # the other models stay alive (no recycled object ids)
+
+        def others(hows):
+            for how in hows:
+                m, fn = self.load_text(L, L.mm, how, other, f"other{len(L.others)}.txt")
+                L.others.append(fn)
+                L.keep.append(m)
+                try:  # use the other model's parser the way the observation uses the observed one's
+                    textx.get_location(m)
+                    for o in textx.get_children(lambda x: True, m)[-1:]:
+                        textx.get_location(o)
+                except Exception:
+                    pass
+
+        others(hist.get("pre", []))
+        L.model, L.file = self.load_text(L, L.mm, src_of(case), raw, "model.txt")
+        others(hist.get("post", []))
+
+    def file_code(self, L, paths=None):
+        def code(fn):
+            if fn is None:
+                return None
+            if paths is not None:
+                if fn in paths:
+                    return f"f{paths.index(fn)}"
+            elif fn == L.file:
+                return "same"
+            if fn == L.gfile:
+                return "grammar"
+            if fn in L.others:
+                return f"other{L.others.index(fn)}"
+            return str(fn)
+        return code
+
+    def observe_model(self, L, model, real, idx, names, code):
+        """spans / locations of the objects `real` of one model, its parser's line / column function, its parse tree"""
+        import textx
+
+        objs, heap, plocs = [], [], []
+        for ro in real:
+            pl = L.ploc.get(id(ro))
+            plocs.append(pl[:3] + [code(pl[3])] if isinstance(pl, list) else pl)
             pos, end = getattr(ro, "_tx_position", None), getattr(ro, "_tx_position_end", None)
             try:
                 loc = textx.get_location(ro)
-                fn = loc.get("filename")
-                loc = [loc.get("line"), loc.get("col"), loc.get("nchar"),
-                       None if fn is None else ("same" if fn == L.file else str(fn))]
+                loc = [loc.get("line"), loc.get("col"), loc.get("nchar"), code(loc.get("filename"))]
             except Exception as e:
                 loc = {"exc": type(e).__name__}
             objs.append([pos, end, loc])
@@ -172,8 +428,8 @@ class Prop(Check):
                 attrs.append([bool(a.cont), ids, name])
             p = getattr(ro, "parent", None)
             heap.append([names.index(type(ro).__name__), None if p is None else idx.get(id(p), -1), attrs, pos, end])
-        parser = L.model._tx_parser
-        text = L.text
+        parser = model._tx_parser
+        text = parser.input
         poss = sorted({0, len(text)} | {o[0] for o in objs if isinstance(o[0], int)} |
                       {o[1] for o in objs if isinstance(o[1], int)} |
                       {i for i, c in enumerate(text) if c in "\n\r"} | {i + 1 for i, c in enumerate(text) if c in "\n\r"})
@@ -184,20 +440,119 @@ class Prop(Check):
                 lcs.append(list(parser.pos_to_linecol(p)))
             except Exception as e:
                 lcs.append({"exc": type(e).__name__})
-        obs = {"outcome": "ok", "text": text, "input_same": parser.input == text, "objs": objs, "heap": heap,
-               "positions": poss, "linecols": lcs, "names": names, "file": L.file is not None}
-        obs.update(G.dump_ptree(L, names))
+        sub = {"input": text, "objs": objs, "heap": heap, "positions": poss, "linecols": lcs, "plocs": plocs}
+        one = G.Loaded()
+        one.model, one.mm = model, L.mm
+        sub.update(G.dump_ptree(one, names))
+        return sub
+
+    def observe(self, case, L):
+        real, why = G.match_objects(L)
+        if real is None:
+            return {"outcome": "shape", "why": why, "text": L.text}
+        idx = {id(o): i for i, o in enumerate(real)}
+        names = sorted(r["name"] for r in case["gram"]["rules"]) if case["kind"] == "gen" else ["Model", "W"]
+        sub = self.observe_model(L, L.model, real, idx, names, self.file_code(L))
+        text = L.text
+        obs = {"outcome": "ok", "text": text, "input_same": sub.pop("input") == text, "names": names,
+               "file": L.file is not None}
+        obs.update(sub)
         return obs
 
+    # ---- multi
+    def load_multi(self, case, L):
+        from textx.scoping.providers import PlainNameImportURI
+
+        L.grammar = MULTI_GRAMMAR
+        L.mm = self.make_mm(case, L, MULTI_GRAMMAR, procs=MULTI_NAMES)
+        L.mm.register_scope_providers({"*.*": PlainNameImportURI()})
+        root = self.tmpdir(L)
+        L.paths = []
+        for i, f in enumerate(case["files"]):
+            path = os.path.join(root, *f["path"].split("/"))
+            os.makedirs(os.path.dirname(path), exist_ok=True)
+            with open(path, "wb") as fh:
+                fh.write(multi_expected(case, i, translate=False)[0].encode("utf-8"))
+            L.paths.append(path)
+        raw = multi_expected(case, 0, translate=False)[0]
+        L.model, L.file = self.load_text(L, L.mm, src_of(case), raw, case["files"][0]["path"])
+
+    def observe_multi(self, case, L):
+        files = case["files"]
+        models = [None] * len(files)
+        models[0] = L.model
+        todo = [0]
+        while todo:
+            i = todo.pop()
+            imps = getattr(models[i], "imports", None)
+            if not isinstance(imps, list) or len(imps) != len(files[i]["imports"]):
+                return {"outcome": "shape", "why": f"file {i}: imports are {imps!r}"}
+            for imp, j in zip(imps, files[i]["imports"]):
+                lm = getattr(imp, "_tx_loaded_models", None)
+                if not isinstance(lm, list) or len(lm) != 1:
+                    return {"outcome": "shape", "why": f"file {i}: the import of file {j} loaded {lm!r}"}
+                if models[j] is None:
+                    models[j] = lm[0]
+                    todo.append(j)
+                elif models[j] is not lm[0]:
+                    return {"outcome": "shape", "why": f"file {j} was loaded as two different models"}
+        reals, offs, n = [], [], 0
+        for i in range(len(files)):
+            one = G.Loaded()
+            one.model = models[i]
+            text, one.exp = multi_expected(case, i)
+            real, why = G.match_objects(one)
+            if real is None:
+                return {"outcome": "shape", "why": f"file {i}: {why}"}
+            reals.append(real)
+            offs.append(n)
+            n += len(real)
+        idx = {id(o): offs[i] + k for i, real in enumerate(reals) for k, o in enumerate(real)}
+        code = self.file_code(L, L.paths)
+        subs = []
+        for i in range(len(files)):
+            sub = self.observe_model(L, models[i], reals[i], idx, MULTI_NAMES, code)
+            sub["off"] = offs[i]
+            # reference targets as (file, object) and the location asked *through* the reference
+            refs = []
+            for o in reals[i]:
+                t = getattr(o, "ref", None)
+                if type(o).__name__ == "Item" and t is not None:
+                    g = idx.get(id(t), -1)
+                    refs.append([idx[id(o)], g])
+            sub["refs"] = refs
+            subs.append(sub)
+        return {"outcome": "ok", "models": subs, "names": MULTI_NAMES, "nobj": n}
+
     # ------------------------------------------------------------------ model
+    @staticmethod
+    def heap_ok(heap):
+        return not any(p == -1 or any(i == -1 for _, ids, _ in attrs for i in ids) for _, p, attrs, _, _ in heap)
+
+    @staticmethod
+    def lean_heap(heap):
+        return [[c, p, [[cont, ids] for cont, ids, _ in attrs], pos, end] for c, p, attrs, pos, end in heap]
+
     def model_req(self, case, obs):
         if obs.get("outcome") != "ok":
             return None
-        if any(not isinstance(o[0], int) or not isinstance(o[1], int) for o in obs["objs"]):
-            return None
-        if any(p == -1 or any(i == -1 for _, ids, _ in attrs for i in ids) for _, p, attrs, _, _ in obs["heap"]):
-            return None
-        heap = [[c, p, [[cont, ids] for cont, ids, _ in attrs], pos, end] for c, p, attrs, pos, end in obs["heap"]]
+        subs = obs["models"] if case["kind"] == "multi" else [obs]
+        for s in subs:
+            if any(not isinstance(o[0], int) or not isinstance(o[1], int) for o in s["objs"]) or not self.heap_ok(s["heap"]):
+                return None
+        if case["kind"] == "multi":
+            heap = [h for s in subs for h in self.lean_heap(s["heap"])]
+            # file i of the case has the file name i + 1; a model without file name has none
+            roots = [[s["off"], s["input"], (i + 1) if (i > 0 or src_of(case) != "str") else None]
+                     for i, s in enumerate(subs)]
+            reqs = [{"op": "locm", "heap": heap, "roots": roots, "xs": list(range(len(heap)))}]
+            for s in subs:
+                reqs.append({"op": "linecol", "text": s["input"], "pos": s["positions"]})
+                if s.get("ptree") is not None:
+                    reqs.append({"op": "build", "mm": s["mm"], "tree": s["ptree"]})
+                    reqs.append({"op": "wf", "tree": s["ptree"], "len": len(s["input"])})
+            return {"op": "multi", "reqs": reqs}
+        heap = self.lean_heap(obs["heap"])
         reqs = [{"op": "linecol", "text": obs["text"], "pos": obs["positions"]},
                 {"op": "loc", "heap": heap, "text": obs["text"], "file": 1 if obs["file"] else None,
                  "xs": list(range(len(heap)))}]
@@ -206,46 +561,85 @@ class Prop(Check):
             reqs.append({"op": "wf", "tree": obs["ptree"], "len": len(obs["text"])})
         return {"op": "multi", "reqs": reqs}
 
+    @staticmethod
+    def cmp_linecol(sub, lc, label=""):
+        if "lc" not in lc:
+            return f"model rejected the request: {lc}"
+        for p, want, got in zip(sub["positions"], lc["lc"], sub["linecols"]):
+            if want != got:
+                return f"{label}pos_to_linecol({p}): implementation {got}, model {want}"
+        return None
+
+    @staticmethod
+    def cmp_loc(objs, plocs, loc, fmap, first=0, label=""):
+        if "loc" not in loc:
+            return f"model rejected the request: {loc}"
+        for i, o in enumerate(objs):
+            for got, when in ((o[2], ""), (plocs[i] if i < len(plocs) else None, " in its object processor")):
+                want = loc["loc"][first + i]
+                if got is None and when:
+                    continue
+                if isinstance(got, dict):
+                    return f"{label}get_location(object {i}){when} raised {got}"
+                g = [got[0], got[1], got[2], fmap(got[3])]
+                if want != g:
+                    return f"{label}get_location(object {i}){when}: implementation {g}, model {want}"
+        return None
+
+    @staticmethod
+    def cmp_build(heap, off, b, wf, label=""):
+        if "objs" not in b:
+            return f"{label}model process_node failed on the real parse tree: {b}"
+        if wf.get("wf") is not True:
+            return f"{label}the real parse tree is not well-formed (ordered non-empty terminals, no empty NonTerminal): {wf}"
+        objs = {o[0]: o for o in b["objs"]}
+        if b["root"] not in objs:
+            return f"{label}model process_node returned {b['root']} for the root"
+        pairs = [(b["root"], off)]
+        while pairs:
+            lid, gid = pairs.pop()
+            lo = objs[lid]
+            cls, par, attrs, pos, end = heap[gid - off]
+            eid = gid - off
+            if [lo[3], lo[4]] != [pos, end]:
+                return f"{label}object {eid}: span [{pos}, {end}) in the implementation, [{lo[3]}, {lo[4]}) in the model"
+            if len(lo[5]) != len(attrs):
+                return f"{label}object {eid}: attribute count differs"
+            for (cont, ids, name), (_, lcont, lids) in zip(attrs, lo[5]):
+                if not cont:
+                    continue
+                if len(ids) != len(lids):
+                    return f"{label}object {eid}.{name}: {len(ids)} contained objects in the implementation, {len(lids)} in the model"
+                pairs.extend(zip(lids, ids))
+        return None
+
     def compare(self, case, obs, out):
         if "outs" not in out:
             return f"model rejected the request: {out}"
-        lc, loc = out["outs"][0], out["outs"][1]
-        if "lc" not in lc or "loc" not in loc:
-            return f"model rejected the request: {lc} {loc}"
-        for p, want, got in zip(obs["positions"], lc["lc"], obs["linecols"]):
-            if want != got:
-                return f"pos_to_linecol({p}): implementation {got}, model {want}"
-        for i, (want, o) in enumerate(zip(loc["loc"], obs["objs"])):
-            got = o[2]
-            if isinstance(got, dict):
-                return f"get_location(object {i}) raised {got}"
-            g = [got[0], got[1], got[2], None if got[3] is None else (1 if got[3] == "same" else got[3])]
-            if want != g:
-                return f"get_location(object {i}): implementation {g}, model {want}"
-        if len(out["outs"]) > 2:
-            b, wf = out["outs"][2], out["outs"][3]
-            if "objs" not in b:
-                return f"model process_node failed on the real parse tree: {b}"
-            if wf.get("wf") is not True:
-                return f"the real parse tree is not well-formed (ordered non-empty terminals, no empty NonTerminal): {wf}"
-            objs = {o[0]: o for o in b["objs"]}
-            if b["root"] not in objs:
-                return f"model process_node returned {b['root']} for the root"
-            pairs = [(b["root"], 0)]
-            while pairs:
-                lid, eid = pairs.pop()
-                lo = objs[lid]
-                cls, par, attrs, pos, end = obs["heap"][eid]
-                if [lo[3], lo[4]] != [pos, end]:
-                    return f"object {eid}: span [{pos}, {end}) in the implementation, [{lo[3]}, {lo[4]}) in the model"
-                if len(lo[5]) != len(attrs):
-                    return f"object {eid}: attribute count differs"
-                for (cont, ids, name), (_, lcont, lids) in zip(attrs, lo[5]):
-                    if not cont:
-                        continue
-                    if len(ids) != len(lids):
-                        return f"object {eid}.{name}: {len(ids)} contained objects in the implementation, {len(lids)} in the model"
-                    pairs.extend(zip(lids, ids))
+        outs = out["outs"]
+        if case["kind"] == "multi":
+            def fmap(c):
+                return int(c[1:]) + 1 if isinstance(c, str) and re.fullmatch(r"f\d+", c) else c
+            k = 1
+            for i, s in enumerate(obs["models"]):
+                label = f"file {i}: "
+                d = (self.cmp_loc(s["objs"], s.get("plocs") or [], outs[0], fmap, first=s["off"], label=label)
+                     or self.cmp_linecol(s, outs[k], label))
+                k += 1
+                if d:
+                    return d
+                if s.get("ptree") is not None:
+                    d = self.cmp_build(s["heap"], s["off"], outs[k], outs[k + 1], label)
+                    k += 2
+                    if d:
+                        return d
+            return None
+        d = self.cmp_linecol(obs, outs[0]) or self.cmp_loc(obs["objs"], obs.get("plocs") or [], outs[1],
+                                                           lambda c: 1 if c == "same" else c)
+        if d:
+            return d
+        if len(outs) > 2:
+            return self.cmp_build(obs["heap"], 0, outs[2], outs[3])
         return None
 
     # ------------------------------------------------------------------ oracle
@@ -255,61 +649,106 @@ class Prop(Check):
             runs = [(m.start(), m.end()) for m in re.finditer(r"[ab]+", text)]
             exp = []
             if runs:
-                exp.append({"eid": 0, "span": [runs[0][0], runs[-1][1]], "parent": None,
+                exp.append({"eid": 0, "cls": "Model", "name": None, "span": [runs[0][0], runs[-1][1]], "parent": None,
                             "attrs": [["items", "cont", list(range(1, len(runs) + 1)), True]]})
-                exp += [{"eid": i + 1, "span": [s, e], "parent": 0, "attrs": []} for i, (s, e) in enumerate(runs)]
+                exp += [{"eid": i + 1, "cls": "W", "name": None, "span": [s, e], "parent": 0, "attrs": []}
+                        for i, (s, e) in enumerate(runs)]
             return text, exp
-        return G.expected(case["gram"], case["tree"], case["layout"], translate=bool(case.get("file")))
+        return G.expected(case["gram"], case["tree"], case["layout"], translate=translated(case))
 
-    def oracle(self, case, obs):
-        oc = obs.get("outcome")
-        if case["kind"] == "mini" and oc == "error" and not re.search(r"[ab]", obs.get("text") or ""):
-            return None  # no object in the text: `items+=W` rejects it
-        if oc in ("error", "other"):
-            return f"loading the derived model failed: {obs.get('type')} {obs.get('msg')}"
-        if oc == "shape":
-            return f"model does not have the derived shape: {obs['why']}"
-        text, exp = self.expected_of(case, obs)
-        if not obs["input_same"] or obs["text"] != text:
-            return "the parser input differs from the text given"
+    @staticmethod
+    def oracle_model(text, exp, objs, want_file, want_name, label="", plocs=()):
+        """the statement, for the objects of one model"""
         n = len(text)
-        for o, (pos, end, loc) in zip(exp, obs["objs"]):
+        for o, ploc, (pos, end, loc) in zip(exp, plocs, objs):
+            if ploc is not None and ploc != loc and isinstance(loc, list):
+                # asked while loading (object processor) and asked on the finished model: the same object, the same answer
+                return (f"{label}get_location(object {o['eid']}) was {ploc} in its object processor and is {loc} on the "
+                        f"finished model")
+        for o, (pos, end, loc) in zip(exp, objs):
             i = o["eid"]
             if not isinstance(pos, int) or not isinstance(end, int):
-                return f"object {i}: _tx_position/_tx_position_end missing ({pos}, {end})"
+                return f"{label}object {i}: _tx_position/_tx_position_end missing ({pos}, {end})"
             if not (0 <= pos < end <= n):
-                return f"object {i}: [{pos}, {end}) is not a non-empty slice of the input (length {n})"
+                return f"{label}object {i}: [{pos}, {end}) is not a non-empty slice of the input (length {n})"
             if [pos, end] != o["span"]:
-                return (f"object {i}: slice [{pos}, {end}) = {text[pos:end][:40]!r}, but its first matched character is at "
+                return (f"{label}object {i}: slice [{pos}, {end}) = {text[pos:end][:40]!r}, but its first matched character is at "
                         f"{o['span'][0]} and its last one ends at {o['span'][1]} ({text[o['span'][0]:o['span'][1]][:40]!r})")
             if isinstance(loc, dict):
-                return f"get_location(object {i}) raised {loc}"
+                return f"{label}get_location(object {i}) raised {loc}"
             line, col = linecol(text, pos)
             if loc[0] != line or loc[1] != col:
-                return f"get_location(object {i}) = line {loc[0]}, col {loc[1]}; position {pos} is line {line}, col {col}"
+                return f"{label}get_location(object {i}) = line {loc[0]}, col {loc[1]}; position {pos} is line {line}, col {col}"
             if loc[2] != end - pos:
-                return f"get_location(object {i}): nchar {loc[2]}, slice length {end - pos}"
-            want_file = "same" if obs["file"] else None
+                return f"{label}get_location(object {i}): nchar {loc[2]}, slice length {end - pos}"
             if loc[3] != want_file:
-                return f"get_location(object {i}): filename {loc[3]!r}, expected {'the model file' if obs['file'] else None}"
+                return f"{label}get_location(object {i}): filename {loc[3]!r}, expected {want_name}"
         for o in exp:
             for attr, kind, vals, many in o["attrs"]:
                 if kind != "cont":
                     continue
                 kids = [v for v in vals if v is not None]
                 for c in kids:
-                    cp, ce, _ = obs["objs"][c]
-                    pp, pe, _ = obs["objs"][o["eid"]]
+                    cp, ce, _ = objs[c]
+                    pp, pe, _ = objs[o["eid"]]
                     if not (pp <= cp and ce <= pe):
-                        return f"object {c} [{cp}, {ce}) is not inside its parent {o['eid']} [{pp}, {pe})"
+                        return f"{label}object {c} [{cp}, {ce}) is not inside its parent {o['eid']} [{pp}, {pe})"
                 for a, b in zip(kids, kids[1:]):
-                    if obs["objs"][a][1] > obs["objs"][b][0]:
-                        return f"objects {a} and {b} of list {o['eid']}.{attr} overlap or are out of order"
+                    if objs[a][1] > objs[b][0]:
+                        return f"{label}objects {a} and {b} of list {o['eid']}.{attr} overlap or are out of order"
+        return None
+
+    def oracle(self, case, obs):
+        oc = obs.get("outcome")
+        if case["kind"] == "mini" and not re.search(r"[ab]", case["text"]):
+            if oc == "error" or (oc == "other" and src_of(case) == "named" and case["text"] == ""):
+                return None  # no object in the text: `items+=W` rejects it (named + empty text: textX reads the file)
+        if oc in ("error", "other"):
+            return f"loading the derived model failed: {obs.get('type')} {obs.get('msg')}"
+        if oc == "shape":
+            return f"model does not have the derived shape: {obs['why']}"
+        if case["kind"] == "multi":
+            return self.oracle_multi(case, obs)
+        text, exp = self.expected_of(case, obs)
+        if not obs["input_same"] or obs["text"] != text:
+            return "the parser input differs from the text given"
+        named = src_of(case) != "str"
+        return self.oracle_model(text, exp, obs["objs"], "same" if named else None,
+                                 "the model file" if named else "None (the model was given as a string)",
+                                 plocs=obs.get("plocs") or ())
+
+    def oracle_multi(self, case, obs):
+        where = {}
+        exps = []
+        for i in range(len(case["files"])):
+            text, exp = multi_expected(case, i)
+            exps.append((text, exp))
+            for o in exp:
+                if o["cls"] == "Item":
+                    where[o["name"]] = (i, o["eid"])
+        for i, ((text, exp), s) in enumerate(zip(exps, obs["models"])):
+            if s["input"] != text:
+                return f"file {i}: the parser input differs from the text of the file"
+            f = self.oracle_model(text, exp, s["objs"], f"f{i}", f"file {i} of the case ('f{i}')", label=f"file {i}: ",
+                                  plocs=s.get("plocs") or ())
+            if f:
+                return f
+            want = [[s["off"] + o["eid"], obs["models"][where[ref][0]]["off"] + where[ref][1]]
+                    for o, (_, ref) in zip(exp[1 + len(case["files"][i]["imports"]):], case["files"][i]["items"]) if ref is not None]
+            if s["refs"] != want:
+                return f"file {i}: references (global object ids) {s['refs']}, expected {want}"
         return None
 
     # ------------------------------------------------------------------ bookkeeping
     def nontrivial(self, case, obs):
-        if obs.get("outcome") != "ok" or len(obs["objs"]) < 3:
+        if obs.get("outcome") != "ok":
+            return False
+        if case["kind"] == "multi":
+            subs = obs["models"]
+            ends = [s["off"] + len(s["objs"]) for s in subs]
+            cross = any(not (s["off"] <= t < e) for s, e in zip(subs, ends) for _, t in s["refs"])
+            return len(subs) >= 2 and cross
+        if len(obs["objs"]) < 3:
             return False
         text = obs["text"]
         if not text or not (text[0].isspace() or text[0] == "/"):
@@ -319,29 +758,94 @@ class Prop(Check):
         return deep and inner
 
     def sample_view(self, case, obs):
-        v = {"kind": case["kind"], "text": (obs.get("text") or "")[:400], "objs": (obs.get("objs") or [])[:6],
-             "outcome": obs.get("outcome"), "file": case.get("file")}
+        v = {"kind": case["kind"], "outcome": obs.get("outcome"), "src": src_of(case), "mm_src": case.get("mm_src", "str"),
+             "hist": case.get("hist")}
+        if case["kind"] == "multi":
+            v["files"] = [[f["path"], (s.get("input") or "")[:200], (s.get("objs") or [])[:4]]
+                          for f, s in zip(case["files"], obs.get("models") or [])]
+            return v
+        v.update({"text": (obs.get("text") or "")[:400], "objs": (obs.get("objs") or [])[:6]})
         if case["kind"] == "gen":
             v["grammar"] = G.render_grammar(case["gram"])
         return v
 
     def shrink(self, case):
+        # the load configuration first: which ingredient is needed?
+        if case.get("hist"):
+            yield {k: v for k, v in case.items() if k != "hist"}
+            h = case["hist"]
+            for side in ("pre", "post"):
+                if h.get(side):
+                    yield dict(case, hist=dict(h, **{side: h[side][:-1]}))
+        if case.get("proc"):
+            yield dict(case, proc=False)
+        if case.get("mm_src", "str") != "str":
+            yield dict(case, mm_src="str")
+            if case["mm_src"] == "file":
+                yield dict(case, mm_src="named")
+        src = src_of(case)
+        simpler = {"rel": ["str", "file"], "file": ["str"], "named": ["str", "file"], "str": []}[src]
+        for s in simpler:
+            if not (case["kind"] == "multi" and s == "str"):
+                yield with_src(case, s)
         if case["kind"] == "mini":
             t = case["text"]
             for i in range(len(t)):
                 yield dict(case, text=t[:i] + t[i + 1:])
             return
-        if case.get("file"):
-            yield dict(case, file=False)
+        if case["kind"] == "multi":
+            yield from self.shrink_multi(case)
+            return
         lay = case["layout"]
         if lay["seps"] or lay["lead"] is not None or lay["trail"] is not None:
-            yield dict(case, layout={"lead": None, "trail": None, "seps": []})
+            yield dict(case, layout=dict(TRIVIAL_LAYOUT))
             yield dict(case, layout=dict(lay, seps=[]))
             yield dict(case, layout=dict(lay, lead=None, trail=None))
             half = len(lay["seps"]) // 2
             yield dict(case, layout=dict(lay, seps=lay["seps"][:half]))
         for t in G.shrink_tree(case["gram"], case["tree"]):
             yield dict(case, tree=t)
+
+    def shrink_multi(self, case):
+        def cp():
+            return G._copy(case)
+
+        files = case["files"]
+        for k in reversed(range(1, len(files))):  # drop a whole file
+            c = cp()
+            del c["files"][k]
+            for f in c["files"]:
+                f["imports"] = [j - (j > k) for j in f["imports"] if j != k]
+            if multi_valid(c):
+                yield c
+        for i, f in enumerate(files):
+            for k in range(len(f["imports"])):  # an import
+                c = cp()
+                del c["files"][i]["imports"][k]
+                if multi_valid(c):
+                    yield c
+            for k in range(len(f["items"])):
+                if len(f["items"]) > 1:  # an item
+                    c = cp()
+                    del c["files"][i]["items"][k]
+                    if multi_valid(c):
+                        yield c
+                if f["items"][k][1] is not None:  # a reference
+                    c = cp()
+                    c["files"][i]["items"][k][1] = None
+                    yield c
+            lay = f["layout"]
+            if lay["seps"] or lay["lead"] is not None or lay["trail"] is not None:
+                c = cp()
+                c["files"][i]["layout"] = dict(TRIVIAL_LAYOUT)
+                yield c
+                c = cp()
+                c["files"][i]["layout"]["seps"] = []
+                yield c
+            if "/" in f["path"]:
+                c = cp()
+                c["files"][i]["path"] = posixpath.basename(f["path"])
+                yield c
 
     def extra_search(self, rng, tier, broken):
         return list(self.gen(rng, 600, "quick"))
@@ -351,9 +855,19 @@ class Prop(Check):
         for o in obs:
             k = o.get("outcome", "crash") if isinstance(o, dict) else "crash"
             outcomes[k] = outcomes.get(k, 0) + 1
-        nobj = sum(len(o["objs"]) for o in obs if isinstance(o, dict) and o.get("outcome") == "ok")
-        npos = sum(len(o["positions"]) for o in obs if isinstance(o, dict) and o.get("outcome") == "ok")
-        return {"distribution": {"outcomes": outcomes, "objects_total": nobj, "linecol_positions": npos,
+        ok = [(c, o) for c, o in zip(cases, obs) if isinstance(o, dict) and o.get("outcome") == "ok"]
+        subs = [s for c, o in ok for s in (o["models"] if c["kind"] == "multi" else [o])]
+        cfg = {}
+        for c in cases:
+            k = f"grammar:{c.get('mm_src', 'str')} model:{src_of(c)}"
+            cfg[k] = cfg.get(k, 0) + 1
+        return {"distribution": {"outcomes": outcomes, "objects_total": sum(len(s["objs"]) for s in subs),
+                                 "linecol_positions": sum(len(s["positions"]) for s in subs),
                                  "mini_cases": sum(1 for c in cases if c["kind"] == "mini"),
-                                 "cases_from_file": sum(1 for c in cases if c.get("file")),
+                                 "multi_cases": sum(1 for c in cases if c["kind"] == "multi"),
+                                 "models_in_multi_cases": sum(len(o["models"]) for c, o in ok if c["kind"] == "multi"),
+                                 "cases_from_file": sum(1 for c in cases if translated(c)),
+                                 "cases_with_history": sum(1 for c in cases if c.get("hist")),
+                                 "locations_seen_by_object_processors": sum(1 for s in subs for p in s.get("plocs") or [] if p),
+                                 "load_configurations": cfg,
                                  "cases_with_comments": sum(1 for c in cases if c["kind"] == "gen" and c["gram"].get("comment"))}}
